@@ -232,8 +232,42 @@ def isSuffixAfterNul (suffix total : Bytes) : Bool :=
     (suffix.length == total.length ||
       total[total.length - suffix.length - 1]? == some 0)
 
-def P_C02 (_cfg : WireCfg) (feedMode : Bool) (total : Bytes) (o : WireObs) : Verdict :=
+/-- the method implementation of this request switches the connection to upgraded mode first thing -/
+def scriptUpgradesFirst (cfg : WireCfg) (r : Request) : Bool :=
+  match ifacePart r.method with
+  | none => false
+  | some i =>
+    i != svcName &&
+    (match lastRegistered cfg i with
+     | some (kind, _, _) => kind == "script" && !((r.method.splitOn ".").getLast?.getD "").startsWith "Nx"
+     | none => false) &&
+    match r.parameters with
+    | some p => (match p.get? "script" with
+      | some (.arr (a :: _)) => a.get? "op" == some (.str "upgrade")
+      | _ => false)
+    | none => false
+
+/-- whether a connection is upgraded is the implementation's decision (`to_upgraded()`), whatever the flags of the
+    request and whether or not a reply is written: behind a prefix of requests the library answers itself, a call
+    whose implementation upgrades first thing leaves the connection upgraded -/
+def checkUpgradeHonoured (cfg : WireCfg) (fs : List Frame) (o : WireObs) : Verdict :=
+  let pre := fs.takeWhile fun f => match f with
+    | .req r => librarySide cfg r && !illTypedBuiltin r
+    | .bad => false
+  match fs.drop pre.length with
+  | .req r :: _ =>
+    if scriptUpgradesFirst cfg r then
+      (match o.status with
+       | .upgraded _ => none
+       | _ => some "implementation-upgraded-the-connection-but-it-was-not-handed-over")
+    else none
+  | _ => none
+
+def P_C02 (cfg : WireCfg) (fs : List Frame) (feedMode : Bool) (total : Bytes) (o : WireObs) : Verdict :=
   if o.panicked then some "panic" else
+  match checkUpgradeHonoured cfg fs o with
+  | some r => some r
+  | none =>
   if o.out != o.refOut then some "replies-depend-on-segmentation" else
   if o.status != o.refStatus then some "status-depends-on-segmentation" else
   match o.status with
